@@ -2,7 +2,6 @@
 #ifndef OSMT_STD_TYPES_H
 #define OSMT_STD_TYPES_H
 typedef struct { t_bool v; } x_std_atomic_bool;
-struct osmt_string { t_char *p; t_ulong n; };   /* std::string after lowering */
 typedef struct { int idx; } x_std___detail___Node_const_iterator_std_basic_string_char_true_true;
 typedef x_std___detail___Node_const_iterator_std_basic_string_char_true_true x_std___detail___Node_iterator_base_std_basic_string_char_true;
 typedef struct { char __opaque; } x_std_unordered_set_std_string; typedef x_std_unordered_set_std_string x_std_unordered_set_std_basic_string_char;
